@@ -43,9 +43,13 @@ partial def loop (h : IO.FS.Stream) (acc : RunAcc) (maxDiffs : Nat) : IO RunAcc 
         loop h { acc with errors := acc.errors + 1, skip := true } maxDiffs
       | .ok (st', out) =>
         -- a fault line is `fault <class> | - @site`: compare the class only
+        -- crash-mirror lines (`!cmp<k> op`) compare the whole post-fault state; ordinary fault lines only the class
+        let isCrash := lhs.startsWith "!"
         let (outCmp, isFault) :=
-          if out.startsWith "fault " then (((out.splitOn " | ").headD ""), true) else (out, false)
-        let expCmp := if isFault || expected.startsWith "fault " then ((expected.splitOn " | ").headD "") else expected
+          if isCrash then (out, true)
+          else if out.startsWith "fault " then (((out.splitOn " | ").headD ""), true) else (out, false)
+        let expCmp := if isCrash then expected
+          else if isFault || expected.startsWith "fault " then ((expected.splitOn " | ").headD "") else expected
         if outCmp == expCmp then
           loop h { acc with st := st', faultsAgreed := acc.faultsAgreed + (if isFault then 1 else 0),
                             skip := isFault } maxDiffs
@@ -62,6 +66,6 @@ def main (args : List String) : IO UInt32 := do
       let hd ← IO.FS.Handle.mk p .read
       pure (IO.FS.Stream.ofHandle hd)
     | [] => IO.getStdin
-  let acc ← loop h {} 20
+  let acc ← loop h {} 300
   IO.println s!"SUMMARY lines={acc.lines} cases={acc.cases} ops={acc.ops} diffs={acc.diffs} errors={acc.errors} faults_agreed={acc.faultsAgreed}"
   return (if acc.diffs == 0 && acc.errors == 0 then 0 else 1)
